@@ -29,6 +29,7 @@ ASSUMPTIONS = [
 ]
 
 KNOWN_SINGLE = "single-version-precision-lt-3"   # C11's known finding seen through C02
+KNOWN_OPT_EXTRA = "optional-dependency-with-own-extra-clause-loses-membership"
 
 NAMES = ["requests", "Django", "my_dep", "zope.interface", "A-b_c"]
 OPS = [">=", ">", "<", "<=", "^", "~", "~=", "!=", "=="]
@@ -522,7 +523,8 @@ def run_projects621(ctx: core.Ctx, projects: list[dict[str, Any]], stream: str) 
                     continue
                 want, got = any(dv), any(ev)
                 if want != got:
-                    ctx.violate(f"selection621:{nm}:{sorted(t for t, _ in group)}",
+                    own_extra = any(x is not None and ";" in t and "extra" in t.split(";", 1)[1] for t, x in group)
+                    ctx.violate(KNOWN_OPT_EXTRA if own_extra else f"selection621:{nm}:{sorted(t for t, _ in group)}",
                                 f"[project] declares {group} for {nm}; Requires-Dist has {emitted}: reference selects={got} for version {cv} on "
                                 f"py={e['python_full_version']} platform={e['sys_platform']} extras={e['extra']}, the declaration says {want}", wit)
                     break
@@ -565,6 +567,10 @@ CORPUS_621 = [
 ]
 
 
+# class KNOWN_OPT_EXTRA, one fixed witness replayed every run
+KNOWN_621 = mk621([], [("a", ["zope.interface ; python_version >= '3.8' and extra != 'foo-bar'"])], None)
+
+
 def correspondence(ctx: core.Ctx) -> None:
     corpus = [{"deps": [d], "extras": d.get("in_extras", []), "python": ">=3.6", "toml": legacy_pyproject([d], d.get("in_extras", []), ">=3.6")} for d in CORPUS_DEPS]
     run_projects(ctx, corpus, "corpus")
@@ -572,6 +578,7 @@ def correspondence(ctx: core.Ctx) -> None:
     for k in range(0, len(projects), 250):
         run_projects(ctx, projects[k:k + 250], "gen")
     run_projects621(ctx, CORPUS_621, "corpus621")
+    run_projects621(ctx, [KNOWN_621], "known-class621")
     p621 = [gen_project621(ctx.rng) for _ in range(ctx.budget(160, 4000))]
     for k in range(0, len(p621), 250):
         run_projects621(ctx, p621[k:k + 250], "gen621")
@@ -581,12 +588,12 @@ def search(ctx: core.Ctx) -> None:
     projects = [gen_project(ctx.rng) for _ in range(1200)]
     for k in range(0, len(projects), 250):
         run_projects(ctx, projects[k:k + 250], "search-gen")
-        if [v for v in ctx.violations if v.key != KNOWN_SINGLE]:
+        if [v for v in ctx.violations if v.key not in (KNOWN_SINGLE, KNOWN_OPT_EXTRA)]:
             return
     p621 = [gen_project621(ctx.rng) for _ in range(1200)]
     for k in range(0, len(p621), 250):
         run_projects621(ctx, p621[k:k + 250], "search-gen621")
-        if [v for v in ctx.violations if v.key != KNOWN_SINGLE]:
+        if [v for v in ctx.violations if v.key not in (KNOWN_SINGLE, KNOWN_OPT_EXTRA)]:
             return
 
 
